@@ -386,7 +386,7 @@ def check_cell_veto(case):
     finally:
         Walker.sample_cell = orig_sample
         setting.reset()
-    return (("veto", kind, dim, len(set(counts)) > 1, layers), nexec), fails
+    return (("veto", kind, dim, len(set(counts)) > 1, layers, tuple(Ls), tuple(counts)), nexec), fails
 
 
 def _leaves(node):
